@@ -193,7 +193,7 @@ impl crate::internal::array_builder::ArrayBuilder {
     pub fn to_arrow(&mut self) -> Result<Vec<ArrayRef>> {
         let arrays = self.build_arrays()?;
         for array in &arrays {
-            check_fixed_sizes(array)?;
+            crate::internal::utils::check_fixed_sizes(array)?;
         }
         Ok(arrays
             .into_iter()
@@ -209,38 +209,6 @@ impl crate::internal::array_builder::ArrayBuilder {
         let schema = Schema::new(fields);
         RecordBatch::try_new(Arc::new(schema), arrays)
             .map_err(|err| Error::custom_from(err.to_string(), err))
-    }
-}
-
-/// The conversion of fixed-size arrays with zero-sized elements to `arrow` arrays is not
-/// supported: it divides by the element size
-fn check_fixed_sizes(array: &marrow::array::Array) -> Result<()> {
-    use marrow::array::Array as A;
-    match array {
-        A::FixedSizeBinary(array) if array.n == 0 => {
-            fail!("FixedSizeBinary arrays with elements of size 0 cannot be converted to arrow arrays")
-        }
-        A::FixedSizeList(array) if array.n == 0 => {
-            fail!(
-                "FixedSizeList arrays with elements of size 0 cannot be converted to arrow arrays"
-            )
-        }
-        A::FixedSizeList(array) => check_fixed_sizes(&array.elements),
-        A::List(array) => check_fixed_sizes(&array.elements),
-        A::LargeList(array) => check_fixed_sizes(&array.elements),
-        A::Struct(array) => array
-            .fields
-            .iter()
-            .try_for_each(|(_, field)| check_fixed_sizes(field)),
-        A::Map(array) => {
-            check_fixed_sizes(&array.keys)?;
-            check_fixed_sizes(&array.values)
-        }
-        A::Union(array) => array
-            .fields
-            .iter()
-            .try_for_each(|(_, _, field)| check_fixed_sizes(field)),
-        _ => Ok(()),
     }
 }
 
